@@ -1,4 +1,5 @@
 import AtreeProofs.Props.C10
+import AtreeProofs.Props.C11
 /-
   C10 — handles obtained by LOOKUP or MUTABLE ITERATION, and after reopening the storage.
   PROPERTY THEOREMS.  `Array.Get` / `OrderedMap.Get` and the mutable iterators install on the new
@@ -122,6 +123,34 @@ theorem reopen_spec (w : World) :
   refine ⟨rfl, rfl, rfl, fun p => rfl, fun fuel x cx => ?_⟩
   rw [notifyParent]
   simp [reopen]
+
+/-- nothing kept = everything handed out is disposed of -/
+theorem disposed_nil (es : List Elem) : disposed [] es = es := by
+  unfold disposed
+  apply List.filter_eq_self.mpr
+  intro e _
+  cases e.pay <;> simp
+
+/-- The bulk pop with kept containers generalises the plain one (about which `C10Pop` speaks). -/
+theorem arrPopKeep_nil (w : World) (h : SlabID) (cx : Ctx) : w.arrPopKeep h [] cx = w.arrPop h cx := by
+  unfold arrPopKeep arrPop
+  simp only [disposed_nil]
+
+theorem mapPopKeep_nil (w : World) (h : SlabID) (cx : Ctx) : w.mapPopKeep h [] cx = w.mapPop h cx := by
+  unfold mapPopKeep mapPop
+  simp only [disposed_nil]
+
+/-- A popped INLINED child that the caller keeps still names its former parent `h` in its closure;
+    `h` (an array) has forgotten every index, so the child's next notification finds nothing,
+    changes no container and only drops the closure (C11 for containers handed out by a bulk pop). -/
+theorem kept_child_notification_is_noop (fuel : Nat) (w : World) (x h : SlabID) (hi : HInfo) (cx : Ctx)
+    (c : Cont) (pa : Arr)
+    (hh : AList.find? w.hinfo x = some hi) (hp : hi.parent = h) (hc : w.cont? x = some c)
+    (hpa : w.cont? h = some (.arr pa)) (hidx : w.idxOf h = []) :
+    notifyParent (fuel + 1) w x cx = .ok (w, cx) ∨
+    notifyParent (fuel + 1) w x cx = .ok ({ w with hinfo := AList.erase w.hinfo x }, cx) := by
+  subst hp
+  exact C11.detached_array_child_leaves_parent_unchanged fuel w x hi cx c pa hh hc hpa (by rw [hidx]; rfl)
 
 /-! ### Non-vacuity: the scenario world of `World/Scenario.lean` (root array `R` holding child array
     `X`, standalone after six inserts), reopened and fetched again through `R`. -/
